@@ -446,7 +446,22 @@ extern "C" int simk_epoll_wait(int ep, struct epoll_event *evs, int max, int tim
 	if (H.on_epoll_wait) H.on_epoll_wait(timeout);
 	call_point(S_EPOLL_WAIT);
 	OWN(ep);
-	if (fault_here(F_EINTR_WAIT, C().rate_eintr, NULL, 0)) { errno = EINTR; return -1; }
+	int64_t frac;
+	if (fault_here(F_EINTR_WAIT, C().rate_eintr, &frac, 1001)) {
+		// a signal handler ran: at once, or - if nothing was ready - after part of the wait has gone by
+		if (timeout > 0 && frac > 0 && epoll_wait(ep, evs, 0 + 1, 0) == 0) {
+			int64_t part = (int64_t)timeout * 1000000LL / 1000 * (frac > 1000 ? 1000 : frac);
+			if (n_tasks() > 1) {
+				EpWait w; w.ep = ep; w.evs = evs; w.max = max; w.got = 0;
+				if (block_until(ep_ready, &w, now_ns() + part, S_EPOLL_WAIT) == 0 && w.got > 0) return w.got;
+			} else {
+				int64_t nx = H.next_external_event_ns ? H.next_external_event_ns() : -1;
+				if (nx >= 0 && nx <= now_ns() + part) part = nx > now_ns() ? nx - now_ns() : 0;
+				advance_ns(part);
+			}
+		}
+		errno = EINTR; return -1;
+	}
 	int64_t deadline = timeout < 0 ? -1 : now_ns() + (int64_t)timeout * 1000000LL;
 	int64_t t_enter = now_ns();
 	int got;
